@@ -1,7 +1,7 @@
 #!/usr/bin/env python3
 # Regenerates /verif/MANIFEST.json from the table below. Edit here, not the JSON.
 import json, subprocess
-IMPLEMENTED = "C01 C02 C03 C04 C05 C06 C07 C08 C11 C12 C13 C14 C15 C19 C20".split()
+IMPLEMENTED = "C01 C02 C03 C04 C05 C06 C07 C08 C09 C10 C11 C12 C13 C14 C15 C16 C17 C18 C19 C20".split()
 NOT_BUILT_REASON = "check not built yet in this work session (planned in DESIGN.md; not a claim that the technique cannot apply)"
 P = {
  "C01": ("exploration", "reference-model monitor (sort+dedupe model over encoding/csv-parsed input) on generated CSV x configuration workloads", "4/C01"),
